@@ -6,6 +6,7 @@ for the replay half)."""
 import concurrent.futures
 import json
 import os
+import time
 from .. import core, cfgs
 
 S = core.tla_set
@@ -46,8 +47,11 @@ def plan(tier):
     masks = [1, 128] if quick else [1, 128, 255]
     J = []
     # ---- SignedData, field level + round trips
-    J.append(job("sig_single", Kinds=q(["signed"]), Pairs=q(PAIRS), SmFlags=b([True, False]), CLens=S([0, 17, 1000] if quick else CLENS), Shapes=q(SHAPES),
-                 Extras=q(["none", "both"] if quick else ["none", "xattr", "uattr", "both"]), Apis=q(["pkcs7", "cfca"]), FieldSel=q(SFIELDS), PosSel=q(pos), Masks=S(masks)))
+    J.append(job("sig_single", Kinds=q(["signed"]), Pairs=q(PAIRS), SmFlags=b([True, False]), CLens=S([17] if quick else CLENS), Shapes=q(SHAPES),
+                 Extras=q(["none", "both"]), Apis=q(["pkcs7", "cfca"]), FieldSel=q(SFIELDS), PosSel=q(["first", "last"]), Masks=S([1, 128])))
+    if not quick:
+        J.append(job("sig_single_b", Kinds=q(["signed"]), Pairs=q(PAIRS), SmFlags=b([True, False]), CLens=S([33]), Shapes=q(SHAPES),
+                     Extras=q(["none", "xattr", "uattr", "both"]), FieldSel=q(SFIELDS), PosSel=q(["mid"]), Masks=S([1, 128, 255])))
     J.append(job("sig_rt", Kinds=q(["signed"]), Pairs=q(PAIRS), SmFlags=b([True, False]), CLens=S(CLENS), Shapes=q(SHAPES), Extras=q(["none", "both"]), Apis=q(["pkcs7", "cfca"])))
     J.append(job("sig_multi", Kinds=q(["signed"]), Multi=q(MULTI), SmFlags=b([False] if quick else [True, False]), CLens=S([17] if quick else [0, 17, 1000]), Shapes=q(SHAPES),
                  Extras=q(["none"] if quick else ["none", "both"]), FieldSel=q(SFIELDS), PosSel=q(pos), Masks=S([1] if quick else masks)))
@@ -58,11 +62,15 @@ def plan(tier):
     if quick:
         J.append(job("sig_byte_sm2", Kinds=q(["signed"]), Pairs=q(["sm2-sm3"]), SmFlags=b([True]), Shapes=q(["att-attrs", "det-attrs", "att-plain", "det-plain"]),
                      ByteK=16, ByteCLens=S([17]), ByteVals='"all"'))
+        J.append(job("sig_byte_sm2p", Kinds=q(["signed"]), Pairs=q(["sm2-sm3"]), SmFlags=b([True]), Shapes=q(["att-plain", "det-plain", "dig-plain"]), Apis=q(["cfca"]),
+                     ByteK=4, ByteCLens=S([17]), ByteVals='"m8"'))
         J.append(job("sig_byte_other", Kinds=q(["signed"]), Pairs=q(["rsa-sha256", "ecdsa-sha384"]), Multi=q(["s1r1"]), Shapes=q(["att-attrs", "dig-plain"]),
                      ByteK=4, ByteCLens=S([17]), ByteVals='"m3"'))
     else:
-        J.append(job("sig_byte_sm2", Kinds=q(["signed"]), Pairs=q(["sm2-sm3"]), SmFlags=b([True, False]), CLens=S([0, 17, 33]), Shapes=q(SHAPES), Extras=q(["none", "both"]),
-                     Apis=q(["pkcs7", "cfca"]), ByteK=16, ByteCLens=S([0, 17, 33]), ByteVals='"all"'))
+        J.append(job("sig_byte_sm2", Kinds=q(["signed"]), Pairs=q(["sm2-sm3"]), SmFlags=b([True]), CLens=S([0, 33]), Shapes=q(SHAPES), Extras=q(["none", "both"]),
+                     Apis=q(["pkcs7", "cfca"]), ByteK=16, ByteCLens=S([0, 33]), ByteVals='"all"'))
+        J.append(job("sig_byte_sm2p", Kinds=q(["signed"]), Pairs=q(["sm2-sm3"]), SmFlags=b([False]), CLens=S([17]), Shapes=q(SHAPES), Extras=q(["none", "xattr", "uattr"]),
+                     ByteK=8, ByteCLens=S([17]), ByteVals='"m8"'))
         J.append(job("sig_byte_other", Kinds=q(["signed"]), Pairs=q(PAIRS[1:]), SmFlags=b([False]), CLens=S([33]), Shapes=q(SHAPES), Extras=q(["none"]),
                      ByteK=16, ByteCLens=S([33]), ByteVals='"m8"'))
         J.append(job("sig_byte_multi", Kinds=q(["signed"]), Multi=q(MULTI), CLens=S([17]), Shapes=q(["att-attrs", "det-plain", "dig-attrs"]),
@@ -76,8 +84,10 @@ def plan(tier):
         J.append(job("env_byte", Kinds=q(["enveloped"]), CipherSel=q(["sm4cbc", "sm4gcm"]), Variants=q(["sm"]), RecipSel=q(["s1s2"]), ByteK=16, ByteCLens=S([17]), ByteVals='"all"'))
         J.append(job("env_byte_rsa", Kinds=q(["enveloped", "encrypted"]), CipherSel=q(["aes128cbc", "sm4ecb"]), Variants=q(["std", "ski"]), RecipSel=q(["s1r1"]), ByteK=4, ByteCLens=S([17]), ByteVals='"m3"'))
     else:
-        J.append(job("env_byte", Kinds=q(["enveloped", "encrypted"]), CipherSel=q(CIPHERS), Variants=q(VARIANTS), RecipSel=q(["s1s2"]), SmFlags=b([True]), CLens=S([0, 33]),
-                     ByteK=8, ByteCLens=S([0, 33]), ByteVals='"all"'))
+        J.append(job("env_byte", Kinds=q(["enveloped", "encrypted"]), CipherSel=q(["sm4cbc", "sm4gcm", "sm4ecb", "aes128cbc"]), Variants=q(VARIANTS), RecipSel=q(["s1s2"]), SmFlags=b([True]), CLens=S([33]),
+                     ByteK=8, ByteCLens=S([33]), ByteVals='"all"'))
+        J.append(job("env_byte_m8", Kinds=q(["enveloped", "encrypted"]), CipherSel=q(CIPHERS), Variants=q(VARIANTS), RecipSel=q(["s1s2"]), SmFlags=b([True, False]), CLens=S([0, 17]),
+                     ByteK=4, ByteCLens=S([0, 17]), ByteVals='"m8"'))
         J.append(job("env_byte_rsa", Kinds=q(["enveloped"]), CipherSel=q(CIPHERS), Variants=q(VARIANTS), RecipSel=q(["s1r1"]), CLens=S([17]), Apis=q(["pkcs7", "cfca"]),
                      ByteK=8, ByteCLens=S([17]), ByteVals='"m8"'))
     # ---- SignedAndEnvelopedData
@@ -86,8 +96,11 @@ def plan(tier):
     J.append(job("ses_field", Kinds=q(["ses"]), CipherSel=q(["sm4cbc", "sm4gcm", "aes256gcm", "3descbc"] if quick else CIPHERS), Pairs=q(["sm2-sm3", "rsa-sha256"]), Multi=q([] if quick else ["s1r1"]),
                  SmFlags=b([True]), RecipSel=q(["s1r1"]), CLens=S([17]), FieldSel=q(EFIELDS + ["sig", "certkey", "certsig", "certbody", "sid", "dalg", "dalgalias", "ealg", "ealgalias", "hdalgs"]),
                  PosSel=q(pos), Masks=S([1] if quick else masks)))
-    J.append(job("ses_byte", Kinds=q(["ses"]), CipherSel=q(["sm4cbc"] if quick else ["sm4cbc", "sm4gcm", "aes128cbc"]), Pairs=q(["sm2-sm3"]), SmFlags=b([True]), RecipSel=q(["s1"]),
+    J.append(job("ses_byte", Kinds=q(["ses"]), CipherSel=q(["sm4cbc"] if quick else ["sm4cbc", "sm4gcm"]), Pairs=q(["sm2-sm3"]), SmFlags=b([True]), RecipSel=q(["s1"]),
                  ByteK=16, ByteCLens=S([17]), ByteVals='"m8"' if quick else '"all"'))
+    if not quick:
+        J.append(job("ses_byte_m8", Kinds=q(["ses"]), CipherSel=q(CIPHERS), Pairs=q(["sm2-sm3", "rsa-sha256"]), SmFlags=b([False]), RecipSel=q(["s1r1"]),
+                     ByteK=8, ByteCLens=S([17]), ByteVals='"m8"'))
     return J
 
 
@@ -188,23 +201,42 @@ def run(ctx):
                                     LeafLens=S([0, 1, 126, 127, 128, 253, 256] if quick else [0, 1, 2, 125, 126, 127, 128, 129, 252, 253, 254, 255, 256, 257]),
                                     ConsTags=q(["30", "a0", "bf8100"] if quick else ["30", "31", "a0", "a3", "bf8100", "7f21"]),
                                     NestLens=S([0, 126] if quick else [0, 1, 126]), BigLens=S([65535, 65536]), OutFile=core.tla_str(berout))))
-    ctx.tlc_many(jobs, parallel=6)
+    big = ("sig_single", "env_rt", "ses_rt", "sig_multi", "sig_rt", "MC_C16ber", "env_field")
+    jobs.sort(key=lambda j: ([j["name"].endswith(x) for x in big] + [True]).index(True))
+    t0 = time.time()
+    ctx.tlc_many(jobs, parallel=5)
+    ctx.extra["tlc_wall_s"] = round(time.time() - t0, 1)
     core.cat_files(outs, out)
 
     hook = hook_present()
     extra_tags = ("c16hook",) if hook else ()
-    cf_default = cfgs.c("default", tags=("verif",) + extra_tags)
-    cf_purego = cfgs.c("purego", tags=("verif", "purego") + extra_tags)
+    renv = {"GOMAXPROCS": "2", "GOGC": "400"}       # the replayer runs one trace at a time; keep the collector from oversubscribing the cores
+    cf_default = cfgs.c("default", tags=("verif",) + extra_tags, env=renv)
+    cf_purego = cfgs.c("purego", tags=("verif", "purego") + extra_tags, env=renv)
     # purego only changes the SM2 / SM3 / SM4 implementations: replay there what uses them
     n_def = max(2, core.NCPU // 2)
     n_pg = max(2, core.NCPU - n_def)
     sh_def, tot_def = split(ctx, out, n_def, "c16-default")
-    sh_pg, tot_pg = split(ctx, out, n_pg, "c16-purego", keep=uses_sm)
+    # (the byte-level classes exercise parsing and the verify / open logic, which is the same Go code: a quarter of them suffices there)
+    sh_pg, tot_pg = split(ctx, out, n_pg, "c16-purego", keep=lambda t: uses_sm(t) and not any(st.get("rel") == "all" or (st["op"] == "tamperbytes" and st["cls"] * 4 >= st["of"]) for st in t["steps"]))
     work = [(f, cf_default) for f in sh_def] + [(f, cf_purego) for f in sh_pg]
     if hook:
         work += [(berout, cf_default), (berout, cf_purego)]
+    t0 = time.time()
     replay_sharded(ctx, work, parallel=core.NCPU)
+    ctx.extra["replay_wall_s"] = round(time.time() - t0, 1)
 
+    # failures carry the failing run's message and keys (they are random per run): move them into the stored trace, so that
+    # ./check C16 --replay re-executes the very same bytes
+    for f in ctx.fails:
+        note = f.get("note") or ""
+        i = note.find("\nFROZEN:")
+        if i >= 0 and isinstance(f.get("trace"), dict):
+            try:
+                f["trace"]["steps"][0]["frozen"] = json.loads(note[i + 8:])
+            except ValueError:
+                pass
+            f["note"] = note[:i]
     # model predictions that the code did not confirm are not failures of the property: count them, show a few
     soft = [f for f in ctx.fails if f.get("kind") == "pred"]
     ctx.fails = [f for f in ctx.fails if f.get("kind") != "pred"]
@@ -212,7 +244,7 @@ def run(ctx):
     seen = set()
     for f in soft:
         st = f["trace"]["steps"]
-        k = (st[1].get("field", st[0].get("op")), f.get("got", "")[:60])
+        k = (st[1].get("field", st[1].get("op")) if len(st) > 1 else st[0].get("op"), f.get("got", "")[:60])
         if k not in seen and len(seen) < 8:
             seen.add(k)
             ctx.notes.append("prediction not confirmed: %s: code %s, %s" % (k[0], f.get("got", "")[:80], f.get("exp")))
